@@ -478,8 +478,10 @@ func (a *NilAn) Paths(fn *ssa.Function, visit func(in ssa.Instruction, ps *PathS
 	}
 	type edge struct{ from, to int }
 	count := 0
+	var pred *ssa.BasicBlock // the block the current path entered b from
 	var walk func(b *ssa.BasicBlock, from int, ps *PathState, used map[edge]bool)
 	walk = func(b *ssa.BasicBlock, from int, ps *PathState, used map[edge]bool) {
+		cameFrom := pred
 		if count > a.MaxPaths {
 			return
 		}
@@ -491,6 +493,7 @@ func (a *NilAn) Paths(fn *ssa.Function, visit func(in ssa.Instruction, ps *PathS
 			if a.Fork != nil {
 				if alts := a.Fork(in, ps); alts != nil {
 					for _, alt := range alts {
+						pred = cameFrom
 						walk(b, i+1, alt, used)
 					}
 					ps.Trace = ps.Trace[:n0]
@@ -526,12 +529,41 @@ func (a *NilAn) Paths(fn *ssa.Function, visit func(in ssa.Instruction, ps *PathS
 						}
 					}
 				}
+				// the relation on this edge: the branch condition, or — for a condition that is
+				// the value of `x && y` / `x || y` (a phi in this block, as a tagless switch case
+				// produces) — the operand this path arrived with
+				rel, hasRel := EdgeRel(b, k)
+				dead := false
+				if !hasRel && cameFrom != nil {
+					if v, pol, ok := CondTruth(b, k); ok {
+						if ph, isPhi := v.(*ssa.Phi); isPhi && ph.Block() == b {
+							for pi, pb := range b.Preds {
+								if pb != cameFrom || pi >= len(ph.Edges) {
+									continue
+								}
+								if cv, isC := ConstBool(ph.Edges[pi]); isC {
+									if cv != pol {
+										dead = true
+									}
+								} else if r2, ok := CondRel(ph.Edges[pi]); ok {
+									if !pol {
+										r2 = r2.Neg()
+									}
+									rel, hasRel = r2, true
+								}
+							}
+						}
+					}
+				}
+				if dead {
+					continue
+				}
 				var feasible bool
-				nps.Nil, feasible = a.refine(b, k, ps.Nil)
+				nps.Nil, feasible = a.refineRel(rel, hasRel, b, ps.Nil)
 				if !feasible {
 					continue
 				}
-				if v, g, eq, ok := sentinelEdge(b, k); ok {
+				if v, g, eq, ok := sentinelRel(rel, hasRel); ok {
 					if old, has := ps.Sent[v]; has && old.Sentinel == g && old.Eq != eq {
 						continue // contradicts an earlier comparison on this path
 					}
@@ -544,6 +576,7 @@ func (a *NilAn) Paths(fn *ssa.Function, visit func(in ssa.Instruction, ps *PathS
 				}
 			}
 			used[e] = true
+			pred = b
 			walk(s, 0, nps, used)
 			delete(used, e)
 		}
@@ -558,6 +591,10 @@ func (a *NilAn) Paths(fn *ssa.Function, visit func(in ssa.Instruction, ps *PathS
 // sentinelEdge: edge (b,k) compares value v with a package-level error sentinel.
 func sentinelEdge(b *ssa.BasicBlock, k int) (ssa.Value, *ssa.Global, bool, bool) {
 	r, ok := EdgeRel(b, k)
+	return sentinelRel(r, ok)
+}
+
+func sentinelRel(r Rel, ok bool) (ssa.Value, *ssa.Global, bool, bool) {
 	if !ok || (r.Op != token.EQL && r.Op != token.NEQ) {
 		return nil, nil, false, false
 	}
@@ -575,6 +612,10 @@ func sentinelEdge(b *ssa.BasicBlock, k int) (ssa.Value, *ssa.Global, bool, bool)
 // refine adds the facts implied by taking the k-th edge out of b.
 func (a *NilAn) refine(b *ssa.BasicBlock, k int, f Facts) (Facts, bool) {
 	r, ok := EdgeRel(b, k)
+	return a.refineRel(r, ok, b, f)
+}
+
+func (a *NilAn) refineRel(r Rel, ok bool, b *ssa.BasicBlock, f Facts) (Facts, bool) {
 	if !ok || (r.Op != token.EQL && r.Op != token.NEQ) {
 		return f, true
 	}
